@@ -462,11 +462,11 @@ def gen_program(rng, n, length, integer_only, allow_custom=True, forced=()):
     return steps
 
 
-def build_circuit(steps):
+def build_circuit(steps, requires_grad=False, resolve_placeholders=True):
     """the program on the real numqi.sim.Circuit.  Every gate-creating step remembers the gate object it produced, so that a
     later `('reuse', k, …)` step can place the *same object* at another index tuple (`append_gate` re-use)."""
     import numqi
-    circ = numqi.sim.Circuit()
+    circ = numqi.sim.Circuit(default_requires_grad=requires_grad)
     registered = set()
     placeholders = {}
     objs = []
@@ -537,8 +537,8 @@ def build_circuit(steps):
         else:
             raise RuntimeError('unknown step ' + name)
         objs.append(obj)
-    if placeholders:
-        circ.setP(**placeholders)
+    if placeholders and resolve_placeholders:
+        circ.setP(**placeholders)       # note: this turns the placeholder gates into ordinary gates with concrete angles
     return circ
 
 
@@ -962,6 +962,274 @@ def slice_cases(ctx, rng):
     return cases
 
 
+# ---------------------------------------------------------------------------
+# gate-derivative: theta -> U(theta) (serves C04's claim "the optimiser receives the true gradient w.r.t. the angles")
+# ---------------------------------------------------------------------------
+
+HALF_BITS = None
+
+
+def ref_dgate(name, part, args):
+    """closed-form derivative of the reference gate formulas (harness side, independent of Lean and of numqi)"""
+    X, Y, Z = REF['X'], REF['Y'], REF['Z']
+    if name == 'rx':
+        return -0.5j * X @ ref_rx(*args)
+    if name == 'ry':
+        return -0.5j * Y @ ref_ry(*args)
+    if name == 'rz':
+        return -0.5j * Z @ ref_rz(*args)
+    if name == 'rzz':
+        return -0.5j * np.kron(Z, Z) @ ref_rzz(*args)
+    th, ph, la = args
+    c, s_ = math.cos(th / 2), math.sin(th / 2)
+    el, ep = np.exp(1j * la), np.exp(1j * ph)
+    if part == 't':
+        return 0.5 * np.array([[-s_, -c * el], [c * ep, -s_ * el * ep]])
+    if part == 'p':
+        return np.array([[0, 0], [s_ * 1j * ep, c * el * 1j * ep]])
+    return np.array([[0, -s_ * 1j * el], [0, c * 1j * el * ep]])
+
+
+def guarded_any(f):
+    """torch raises RuntimeError for a broken graph: any exception of the real code is an observable failure here"""
+    try:
+        return f()
+    except Exception as e:
+        return 'error:' + type(e).__name__
+
+
+def torch_jacobian(name, args):
+    """d gate / d angle_a from torch autograd through the real constructor (float64), one complex matrix per angle"""
+    import torch, numqi
+    f = getattr(numqi.gate, name)
+    a = torch.tensor(list(args), dtype=torch.float64)
+    J = torch.autograd.functional.jacobian(lambda a: torch.view_as_real(f(*[a[i] for i in range(len(args))])), a)
+    J = J.detach().numpy()
+    return [J[..., 0, i] + 1j * J[..., 1, i] for i in range(len(args))]
+
+
+def derivative_cases(ctx, rng):
+    """`dgate` ops: the Lean derivative arrays (exact, pairs as bit patterns) against torch autograd of the real constructors"""
+    cases = []
+    half = enc_q(np.array([0.5]))
+    nrand = 4 if ctx.quick() else 40
+    for name, na in [('rx', 1), ('ry', 1), ('rz', 1), ('rzz', 1), ('u3', 3)]:
+        angles = [(a,) * na for a in SPECIAL_ANGLES] + [tuple(float(x) for x in rng.uniform(-7, 7, size=na)) for _ in range(nrand)]
+        if na == 3:
+            angles += [tuple(SPECIAL_ANGLES[int(i)] for i in rng.integers(0, len(SPECIAL_ANGLES), size=3)) for _ in range(nrand)]
+        for a in angles:
+            parts = ['t', 'p', 'l'] if na == 3 else ['-']
+            for i, part in enumerate(parts):
+                dname = name + part if na == 3 else name
+                cases.append(Case(f'C03 dgate Q {dname} {half} {enc_pairs(vocab_pairs(name, a), enc_q)}',
+                                  (lambda name=name, a=a, i=i: np.asarray(torch_jacobian(name, a)[i], dtype=np.complex128)),
+                                  (lambda name=name, a=a, part=part: ref_dgate(name, part, a)),
+                                  approx=True, key='gate-derivative', ntkey=('dgate', dname, a),
+                                  replay=dict(fn='d numqi.gate.' + name, part=part, args=list(a))))
+    return cases
+
+
+PARAM_NAMES = ['rx', 'ry', 'rz', 'rzz', 'u3', 'crx', 'cry', 'crz', 'cu3', 'rxP', 'ryP']
+
+
+def base_of(name):
+    """vocabulary name of a step name (`rxP`/`ryP` are rx/ry whose angle is a placeholder supplied from outside)"""
+    return name[:2] if name in ('rxP', 'ryP') else name
+
+
+def gen_trainable(rng, special=False):
+    """a small circuit of trainable parametrised gates (distinct angles, so that a row of the wrapper's parameter tensor is
+    identified by its values), fixed gates in between, and possibly one gate object re-used at a second placement (shared angle)"""
+    n = int(rng.integers(1, 4))
+    steps = []
+    ng = int(rng.integers(1, 5))
+    for _ in range(ng):
+        if rng.integers(0, 3) == 0:
+            steps.append(make_step(rng, n, ['H', 'X', 'S', 'cnot', 'Swap'][int(rng.integers(0, 5))]) or make_step(rng, n, 'H'))
+        name = PARAM_NAMES[int(rng.integers(0, len(PARAM_NAMES)))]
+        st = make_step(rng, n, name) or make_step(rng, n, 'rx')
+        if special:
+            k = 3 if st[0] in ('u3', 'cu3') else 1
+            ang = tuple(SPECIAL_ANGLES[int(i)] + 1e-3 * float(rng.uniform(-1, 1)) * 0 for i in rng.integers(0, len(SPECIAL_ANGLES) - 1, size=k))
+            st = st[:-1] + (ang,)
+        steps.append(st)
+    trainable = [i for i, st in enumerate(steps) if st[0] in PARAM_NAMES and st[0] not in ('rxP', 'ryP')]
+    if rng.integers(0, 2) and trainable:
+        k = trainable[int(rng.integers(0, len(trainable)))]
+        e = step_semantics(steps[k])[0]
+        if e[0] == 'u':
+            steps.append(('reuse', k, pick_targets(rng, n, len(e[2]))))
+        elif len(e[2]) + len(e[3]) <= n:
+            q = pick_targets(rng, n, len(e[2]) + len(e[3]))
+            steps.append(('reuse', k, q[:len(e[2])], q[len(e[2]):]))
+    return n, steps
+
+
+def trainable_cases(ctx, rng):
+    out = []
+    nc = 30 if ctx.quick() else 250
+    it = 0
+    while len(out) < nc and it < 10 * nc:
+        it += 1
+        n, steps = gen_trainable(rng, special=(it % 4 == 0))
+        # distinct argument tuples per gate name (rows of the parameter tensor are identified by value)
+        seen = set()
+        ok = True
+        for st in steps:
+            if st[0] in PARAM_NAMES:
+                key = (base_of(st[0]), st[-1])
+                ok = ok and key not in seen
+                seen.add(key)
+        if not ok:
+            continue
+        psi = rand_gi(rng, 2 ** n, -2, 2)
+        if not np.any(psi):
+            psi[0] = 1
+        g = rand_gi(rng, 2 ** n, -2, 2)
+        out.append((n, steps, psi, g))
+    return out
+
+
+def wrapper_gradient(n, steps, psi, g):
+    """what the optimiser receives: {(step index, angle position): d Re<g, F(theta) psi> / d angle} from CircuitTorchWrapper + autograd"""
+    import torch, numqi
+    circ = build_circuit(steps, requires_grad=True, resolve_placeholders=False)
+    w = numqi.sim.CircuitTorchWrapper(circ)
+    # placeholder angles are supplied from outside as tensors (keys p0, p1, … in the order build_circuit created them)
+    ph, k = {}, 0
+    for i, st in enumerate(steps):
+        if st[0] in ('rxP', 'ryP'):
+            ph[i] = (f'p{k}', torch.tensor(st[-1][0], dtype=torch.float64, requires_grad=True)); k += 1
+    if ph:
+        w.setP(**{key: t for key, t in ph.values()})
+    out = w(torch.tensor(psi))
+    loss = torch.real(torch.vdot(torch.tensor(g), out))
+    loss.backward()
+    res = {}
+    for i, st in enumerate(steps):
+        if st[0] in ('rxP', 'ryP'):
+            res[(i, 0)] = float(ph[i][1].grad)
+        elif st[0] in PARAM_NAMES:
+            th = w.theta[st[0]].detach().numpy()
+            gr = w.theta[st[0]].grad.numpy()
+            rows = [r for r in range(th.shape[0]) if np.array_equal(th[r], np.array(st[-1], dtype=np.float64))]
+            if len(rows) != 1:
+                raise ValueError('parameter row not identifiable')
+            for a in range(len(st[-1])):
+                res[(i, a)] = float(gr[rows[0], a])
+    return res
+
+
+def derivative_entries(steps):
+    """for every trainable step and angle position: the placements (sem index, qubits) of its gate object and the dv-name"""
+    sem = program_semantics(steps)
+    owners = {}
+    for i, st in enumerate(steps):
+        k = st[1] if st[0] == 'reuse' else i
+        owners.setdefault(k, []).append(i)
+    ent = {}
+    for k, occ in owners.items():
+        st = steps[k]
+        if st[0] not in PARAM_NAMES:
+            continue
+        for a in range(len(st[-1])):
+            base = base_of(st[0])
+            dname = (base + 'tpl'[a]) if base in ('u3', 'cu3') else base
+            ent[(k, a)] = (dname, occ)
+    return sem, ent
+
+
+def program_text_derivative(sem, i_repl, dname, args, enc, half):
+    out = []
+    for i, x in enumerate(sem):
+        if i == i_repl:
+            qubits = tuple(x[2]) if x[0] == 'u' else tuple(x[2]) + tuple(x[3])
+            base = dname.rstrip('tpl') if dname.rstrip('tpl') in ('u3', 'cu3') else dname
+            out.append(f'dv:{dname}:{idx_str(qubits)}:{half}:{enc_pairs(vocab_pairs(base, args), enc)}')
+        else:
+            out.append(program_text([x], enc))
+    return '|'.join(out)
+
+
+def gate_derivative_tie(ctx):
+    """`angle_gradient` on the real code: the gradient CircuitTorchWrapper delivers for every angle against
+    sum over placements of Re<g, (circuit with dGate/dtheta in place of the gate) psi> evaluated by the Lean model"""
+    circuits = _CACHE.setdefault('gd', trainable_cases(ctx, np.random.default_rng(ctx.np_seed + 11)))
+    half = enc_q(np.array([0.5]))
+    ops, meta = [], []
+    for ci, (n, steps, psi, g) in enumerate(circuits):
+        sem, ent = derivative_entries(steps)
+        for (k, a), (dname, occ) in ent.items():
+            for i in occ:
+                ops.append(f'C03 circ Q {n} {program_text_derivative(sem, i, dname, steps[k][-1], enc_q, half)} {enc_q(psi)}')
+                meta.append((ci, k, a, 1.0))
+                if sem[i][0] == 'c':
+                    # a controlled gate is affine in its matrix, (1-P) + P*embed(U): its derivative is the control-on block only,
+                    # obtained from the model as (entry with dU) - (entry with the zero matrix)
+                    x = sem[i]
+                    zero = f'c:{idx_str(x[2])}:{idx_str(x[3])}:{enc_q(np.zeros_like(np.asarray(x[1], dtype=np.complex128)))}'
+                    txt = '|'.join(zero if j == i else program_text([y], enc_q) for j, y in enumerate(sem))
+                    ops.append(f'C03 circ Q {n} {txt} {enc_q(psi)}')
+                    meta.append((ci, k, a, -1.0))
+    model = common.run_model(ops, pid='C03') if ops else []
+    expect = {}
+    bad_model = set()
+    for (ci, k, a, sign), line in zip(meta, model):
+        if line.startswith('error') or line == 'bad-op':
+            bad_model.add((ci, k, a)); continue
+        expect[(ci, k, a)] = expect.get((ci, k, a), 0.0) + sign * float(np.real(np.vdot(circuits[ci][3], dec_q(line))))
+    for ci, (n, steps, psi, g) in enumerate(circuits):
+        got = guarded_any(lambda: wrapper_gradient(n, steps, psi, g))
+        sem, ent = derivative_entries(steps)
+        for (k, a) in ent:
+            ctx.count('angle-gradient')
+            op = f'C03 angle-gradient circuit#{ci} step{k} angle{a} ' + repr(describe(steps))[:300]
+            if isinstance(got, str) or (ci, k, a) in bad_model:
+                ctx.disagree(op, 'model: ' + ('error' if (ci, k, a) in bad_model else f'{expect.get((ci, k, a))}'), f'impl: {got}')
+                continue
+            e, v = expect[(ci, k, a)], got[(k, a)]
+            if abs(e - v) <= TOL * max(1.0, abs(e)):
+                ctx.agree(op, ('angle-gradient', ci, k, a))
+            else:
+                ctx.disagree(op, f'{e!r}', f'{v!r}')
+
+
+def gate_derivative_probe(ctx):
+    """model-independent: the delivered gradient against the product rule with the kron oracle and the closed-form
+    derivatives -(i/2) G gate(theta) of the harness reference formulas"""
+    circuits = _CACHE.setdefault('gd', trainable_cases(ctx, np.random.default_rng(ctx.np_seed + 11)))
+    for ci, (n, steps, psi, g) in enumerate(circuits):
+        got = guarded_any(lambda: wrapper_gradient(n, steps, psi, g))
+        rp = dict(fn='CircuitTorchWrapper gradient', n=n, program=repr(describe(steps)), psi=repr(psi.tolist()), g=repr(g.tolist()))
+        if isinstance(got, str):
+            ctx.fail('gate-derivative:raises', 'CircuitTorchWrapper forward/backward raised on a circuit of trainable vocabulary gates', rp)
+            continue
+        sem, ent = derivative_entries(steps)
+        for (k, a), (dname, occ) in ent.items():
+            base = base_of(steps[k][0])
+            D = ref_dgate(base[1:] if base.startswith('c') else base, 'tpl'[a] if base in ('u3', 'cu3') else '-', steps[k][-1])
+            want = 0.0
+            for i in occ:
+                v = psi.astype(np.complex128)
+                for j, x in enumerate(sem):
+                    A = D if j == i else x[1]
+                    E = oracle_embed(A, x[2], n) if x[0] == 'u' else (oracle_ctrl(A, x[2], x[3], n) - (0 if j != i else (np.eye(2 ** n) - _ctrl_proj(x[2], n))))
+                    v = E @ v
+                want += float(np.real(np.vdot(g, v)))
+            if abs(want - got[(k, a)]) > 1e-9 * max(1.0, abs(want)):
+                ctx.fail('gate-derivative', f'gradient delivered for angle {a} of {base} (step {k}) is {got[(k, a)]!r}, the derivative of Re<g,F(theta)psi> is {want!r}',
+                         dict(rp, step=k, angle=a, observed=got[(k, a)], expected=want))
+            else:
+                ctx.probe_ok(('gate-derivative', ci, k, a))
+
+
+def _ctrl_proj(c, n):
+    P = np.array([[1.0]])
+    for q in range(n):
+        P = np.kron(P, np.diag([0.0, 1.0]) if q in set(c) else np.eye(2))
+    return P
+
+
 _CACHE = {}
 
 
@@ -969,7 +1237,7 @@ def all_cases(ctx):
     if 'cases' not in _CACHE:
         rng = np.random.default_rng(ctx.np_seed)
         cases = gate_cases(ctx, rng) + embed_cases(ctx, rng) + dm_cases(ctx, rng) + inner_cases(ctx, rng) + prob_cases(ctx, rng) \
-            + circuit_cases(ctx, rng) + malformed_cases(ctx, rng) + slice_cases(ctx, rng) + vocabulary_cases(ctx, rng)
+            + circuit_cases(ctx, rng) + malformed_cases(ctx, rng) + slice_cases(ctx, rng) + vocabulary_cases(ctx, rng) + derivative_cases(ctx, rng)
         for c in cases:
             if c.soft:
                 try:
@@ -1024,7 +1292,7 @@ def agree(case, model_line):
         return e is not None and e == model_line
     ring = case.op.split(' ')[2]
     m = dec_z(model_line) if ring == 'Z' else dec_q(model_line)
-    return close(v, m, 1e-12 if case.op.split(' ')[1] in ('gatemat', 'vocab') else TOL)
+    return close(v, m, 1e-12 if case.op.split(' ')[1] in ('gatemat', 'vocab', 'dgate') else TOL)
 
 
 def correspondence(ctx):
@@ -1044,6 +1312,7 @@ def correspondence(ctx):
             v = c.value
             shown = v if isinstance(v, str) else (repr(v) if isinstance(v, (tuple, list)) else (enc_z(v) or repr(np.asarray(v).tolist())))
             ctx.disagree(c.op if len(c.op) < 4000 else c.op[:4000] + '…', m[:2000], shown[:2000])
+    gate_derivative_tie(ctx)
     for c in cases[:3]:
         ctx.sample({'op': c.op[:200], 'out': (c.value if isinstance(c.value, str) else enc_z(c.value) or '')[:120]})
     ctx.assumptions += ['opt_einsum.contract computes the einsum its label lists denote (contraction order is result-equivalent)',
@@ -1087,6 +1356,7 @@ def probe(ctx):
                 ctx.fail('Circuit.to_unitary:not-unitary', 'to_unitary of a circuit of unitary gates is not unitary', c.replay)
             else:
                 ctx.probe_ok()
+    gate_derivative_probe(ctx)
     # reference gate arrays used for the model's reading of the vocabulary agree with the live constants
     G = numqi.gate
     live = dict(X=G.X, Y=G.Y, Z=G.Z, H=G.H, S=G.S, T=G.T, Swap=G.Swap)
